@@ -412,9 +412,25 @@ type ggState struct {
 	keepLog bool
 	known   map[string]bool
 	// known-finding hits of this case: signature -> first point (1-based; 0 = reference)
-	knownHits  map[string]int
 	knownFirst *verifsim.Violation
 	knownK     int
+	// known-finding hits per fault family of this case (see ggKnownCap)
+	knownByFam map[string]int
+	curFam     string
+}
+
+// While the tree has open known findings almost every oversized length kills the decode
+// server, which is slow. Once a fault family (truncation, overwrite of one field kind, ...)
+// has met ggKnownCap known findings in a case, its remaining points are skipped (counted as
+// points_skipped_known_cap: inconclusive, never a verdict). The count of violating points is
+// deterministic, so the cap is too. On a tree without known findings nothing is ever skipped.
+const ggKnownCap = 30
+
+func (p *ggPoint) family() string {
+	if p.kind == "ow" {
+		return "ow:" + p.fld.Kind
+	}
+	return p.kind
 }
 
 func (st *ggState) fieldAt(off int) *ggField {
@@ -778,6 +794,7 @@ func (st *ggState) handle(run *ggRun, v *verifsim.Violation, k int) bool {
 	run.res.Info["viol:"+v.Signature]++
 	if st.known[v.Signature] {
 		run.res.Info["known_hits"]++
+		st.knownByFam[st.curFam]++
 		if st.knownFirst == nil {
 			st.knownFirst, st.knownK = v, k
 		}
@@ -820,7 +837,7 @@ func runGGUF(t *testing.T, tape *verifsim.Tape, prop, tier string, keepLog bool)
 		d := ggDraw(tp.Draw)
 		run := &ggRun{res: verifsim.Result{Info: map[string]int{}, Faults: map[string]int{}, Probes: map[string]int{}}}
 		c := ggGenerate(d, tier)
-		st = &ggState{c: c, keepLog: keepLog, known: ggKnown}
+		st = &ggState{c: c, keepLog: keepLog, known: ggKnown, knownByFam: map[string]int{}, curFam: "reference"}
 		st.mode = ggModes[d(len(ggModes))]
 		nsched := 1 + d(2)
 		for i := 0; i < nsched; i++ {
@@ -916,6 +933,12 @@ func runGGUF(t *testing.T, tape *verifsim.Tape, prop, tier string, keepLog bool)
 			return run.res
 		}
 		p := &st.points[k]
+		st.curFam = p.family()
+		if st.knownByFam[st.curFam] >= ggKnownCap {
+			run.res.Info["points_skipped_known_cap"]++
+			run.res.Executions = -1 // not an evaluation
+			return run.res
+		}
 		what := p.describe(st)
 		img := st.image(p)
 		run.hash = ggHash(st.hash, k, p.kind)
@@ -972,6 +995,9 @@ func runGGUF(t *testing.T, tape *verifsim.Tape, prop, tier string, keepLog bool)
 			if st.handle(run, v, k+1) {
 				run.res.Sample = append(st.c.describe(), "fault: "+what)
 				break
+			}
+			if v != nil {
+				break // a known finding: the other modes of this point would only repeat it
 			}
 		}
 		run.res.SchedHash = run.hash
